@@ -10,6 +10,6 @@ theorem kd_derive_icc_mk_a (k : Bytes) (pan : StrOrBytes) (psn : Option StrOrByt
   unfold Gen.kd.derive_icc_mk_a deriveIccMkA keyFromData psnTextR
   simp only [tools_xor, rep_flatten, tools_ecb, tools_adjust, bind, Except.bind, pure, Except.pure]
   repeat (first | rfl | split)
-  all_goals simp_all
+  all_goals first | (simp_all; done) | slice_forms
 
 end Pyemv.ModRefines
